@@ -4,6 +4,9 @@
 (* scenarios for the real components (component steps become "Await").     *)
 (* Messages are named by the ordinal of their root request, which is the   *)
 (* same in the model and in the replay (roots are issued by the script).   *)
+(* Every step that puts a message into a queue of an engine names that     *)
+(* engine (c), so that the replay can deliver it just before the step that *)
+(* consumes it (the real engine is eager, the model is lazy).              *)
 EXTENDS RDMA
 VARIABLE act
 MCPayloads == {[k |-> "r", a |-> 5,  n |-> 4, d |-> <<>>,        m |-> <<>>],
@@ -21,6 +24,7 @@ SComp(c) ==
   \/ (port[c].dtiIn # <<>> /\ RspOut(c, 10 * RootOf(Head(port[c].dtiIn).to) + 4) /\ A([a |-> "Await", c |-> c, e |-> "RspOut"]))
   \/ (port[c].rqoIn # <<>> /\ RspIn(c, 10 * RootOf(Head(port[c].rqoIn).to) + 5) /\ A([a |-> "Await", c |-> c, e |-> "RspIn"]))
   \/ (TakeDrain(c) /\ A([a |-> "Await", c |-> c, e |-> "TakeDrain"]))
+  \/ (DrainPrepare(c) /\ A([a |-> "Tick"]))
   \/ (DrainAck(c) /\ A([a |-> "Await", c |-> c, e |-> "DrainAck"]))
   \/ (Restart(c) /\ A([a |-> "Await", c |-> c, e |-> "Restart"]))
 SEnv ==
@@ -41,10 +45,10 @@ SEnv ==
         \/ EnvTakeCtrl(c) /\ A([a |-> "CtrlTake", c |-> c])
         \/ (env.nDrain < MaxDrain /\ EnvCtrl(c, Ctl("drain", P(c, "cp", 0), P(c, "ctl", 0))) /\ A([a |-> "Ctrl", c |-> c, k |-> "drain"]))
         \/ (EnvCtrl(c, Ctl("restart", P(c, "cp", 0), P(c, "ctl", 0))) /\ A([a |-> "Ctrl", c |-> c, k |-> "restart"]))
-  \/ \E m \in env.nreq : NetDeliverReq(m) /\ A([a |-> "NetDeliverReq", root |-> RootOf(m.id)])
-  \/ \E m \in env.nrsp : NetDeliverRsp(m) /\ A([a |-> "NetDeliverRsp", root |-> RootOf(m.to)])
-  \/ \E q \in env.nreq, d \in RspData : ExtAnswer(q, Answer(q, d)) /\ A([a |-> "ExtAnswer", root |-> RootOf(q.id), d |-> Answer(q, d).d])
-  \/ \E q \in env.l2, d \in RspData : L2Rsp(q, Answer(q, d)) /\ A([a |-> "L2Rsp", root |-> RootOf(q.id), d |-> Answer(q, d).d])
+  \/ \E m \in env.nreq : NetDeliverReq(m) /\ A([a |-> "NetDeliverReq", root |-> RootOf(m.id), c |-> m.dst.g])
+  \/ \E m \in env.nrsp : NetDeliverRsp(m) /\ A([a |-> "NetDeliverRsp", root |-> RootOf(m.to), c |-> m.dst.g])
+  \/ \E q \in env.nreq, d \in RspData : ExtAnswer(q, Answer(q, d)) /\ A([a |-> "ExtAnswer", root |-> RootOf(q.id), d |-> Answer(q, d).d, c |-> q.src.g])
+  \/ \E q \in env.l2, d \in RspData : L2Rsp(q, Answer(q, d)) /\ A([a |-> "L2Rsp", root |-> RootOf(q.id), d |-> Answer(q, d).d, c |-> q.src.g])
 SInit == Init /\ act = [a |-> "Init"]
 SNext == (\E c \in cfg.comps : SComp(c)) \/ SEnv
 SSpec == SInit /\ [][SNext]_<<vars, act>>
